@@ -8,9 +8,16 @@
   The statement is about THE COMPOSED MODEL `Scc.Pipeline.stages` (Scc/Pipeline.lean; tied to the real
   driver by byte equality of the final routine text, and pass by pass by the components).
 
-  * `C12_statement`      the full statement (def).
+  * `C12_statement_full` the property as given (def).  It is FALSE — `C12_statement_full_false`: a program
+                         that CALLS `main` (`def main(n: i64): i64 { if n == 0 { 0 } else { 1 + main(n - 1) } }`)
+                         is accepted, has a valid `main`, and is translated to an ILL-TYPED Core program
+                         (fun2core translates `main` without a continuation parameter but appends a
+                         continuation argument to every call: finding D13, a genuine defect of /repo).
+  * `C12_statement`      the statement with the decidable hypothesis `Scc.Fun.noMainCall p' = true`
+                         (Scc/Fun/MainCall.lean) that excludes exactly that (def).
   * `C12_chain`          the composition theorem: `C12_statement` follows from FOUR named links that are
-                         not theorems yet
+                         not theorems yet (each restricted to accepted programs with a valid `main` that
+                         do not call `main` — without the latter `C12_link_fun2core` is false by D13)
                            `C12_link_fun2core`  the translation of an accepted program succeeds, its output is a
                                                 well-typed Core program with all binder ids 0 (C03's `Input`) in
                                                 which no name is both a data and a codata type
@@ -22,15 +29,25 @@
                          and from the links that ARE theorems, used directly:
                            `C15_sound` (accepted ⇒ `WT p`, output annotated — the precondition of fun2core's
                            `expect("Types should be annotated")`), `C03_unique_binders_global` (S3 has globally
-                           unique binders ⇒ the checker `uniqueBindersCheck` accepts, and ⇒ `uniqueIdsCheck`),
-                           `focusPanicFree_of_wellTyped` (Scc/Pipeline/FocusNoPanic.lean, proved for this
-                           composition: uniquify + focus do not panic on well-typed Core),
+                           unique binders ⇒ the checker `uniqueBindersCheck` accepts, and ⇒ `uniqueIdsCheck`,
+                           `idsBoundedCheck`), `focusPanicFree_of_wellTyped` (Scc/Pipeline/FocusNoPanic.lean,
+                           proved for this composition: uniquify + focus do not panic on well-typed Core),
                            `C04_no_panic` (shrinking does not panic on `wtFsCheck` input),
                            `shrinkProg_noEnvAnn` (Scc/Pipeline/ShrinkNoEnv.lean, proved for this composition:
                            shrinking never writes a closure-environment annotation — side condition of C05_T4),
                            `C05_linearize_LinTyped` (linearization does not panic on `WfNonLinear` input and its
-                           output is `LinTypedProg`).
-  * `C12_facts`          the same chain with everything the end-to-end composition (Props/C01) needs.
+                           output is `LinTypedProg`), `stages_mainHead` (`main` stays the first definition and
+                           keeps integer parameters ⇒ `mainIntParams`).
+  * `C12_linkChecks`     ONE decidable per-program predicate: the DECIDABLE CONTENT of the three typing links on
+                         the stages of one program (`stages` succeeds; S2 is C03's `Input`; S3 passes
+                         `wtFsScopedCheck`; S4 passes `wtAxCheck` and `wfNonLinearCheck`).  The checks evaluate it
+                         on every accepted program of every run (`Scc.Pipeline.Links.linksLine`).
+  * `C12_facts_of_checks`  for ONE program: `C12_linkChecks p' = true` ⇒ everything the chain knows about its
+                         stages (`C12_Facts`: also `focusPanicFree`, `uniqueBindersCheck`, `uniqueIdsCheck`,
+                         `idsBoundedCheck`, `mainIntParams`, `noEnvAnnProg`, `LinTypedProg`, all DERIVED by the
+                         theorems above) — no link hypothesis at all; used by Props/C01.
+  * `C12_of_linkChecks`  for ONE program: the conclusion of C12 for S1 … S5 from `C12_linkChecks p' = true`.
+  * `C12_facts`          the same facts from the three typing links (for all programs).
   The links quantify over the programs that occur in a compilation of an accepted source program with
   a valid `main` (not over arbitrary well-typed intermediate programs): that is exactly what C12
   claims, and it keeps each hypothesis free of side conditions about programs no front end produces
@@ -42,6 +59,7 @@ import Scc.Pipeline.Lemmas
 import Scc.Pipeline.Bridges
 import Scc.Pipeline.ShrinkNoEnv
 import Scc.Pipeline.FocusNoPanic
+import Scc.Fun.MainCall
 import Scc.Props.C03
 import Scc.Props.C04
 import Scc.Props.C05
@@ -77,22 +95,32 @@ def C12_codegenTotal (q5 : AxCut.Prog) : Prop :=
     C12_okOrCapacity (A64.compileProg A64.a64Backend q5 hooks c) ∧
     C12_okOrCapacity (RV.compileRoutine q5 hooks c)
 
-/-- C12, full statement: for every accepted program with a valid `main`
+/-- the conclusion of C12 for one program:
     (S1) the checker's output is annotated and the source is well-typed;
     every model stage returns `ok` (no panic outcome), and
     (S2) the Core program is well-typed, (S3) the focused program passes `wtFsCheck` and
     `uniqueBindersCheck`, (S4) the AxCut program passes `wtAxCheck`, (S5) the linearized program is
     `LinTypedProg`, (S6/S7) the code generators return a program or a capacity error. -/
+def C12_conclusion (p : Fun.Program) (p' : Fun.CheckedProgram) : Prop :=
+  Fun.Typing.WT p ∧ Fun.Typing.annotatedProgram p' = true ∧
+  ∃ st : Stages, stages p' = .ok st ∧
+    st.s2.wellTyped = true ∧
+    Core2AxCut.wtFsCheck st.s3 = true ∧ Core.uniqueBindersCheck st.s3 = true ∧
+    AxCut.Named.wtAxCheck st.s4 = .ok () ∧
+    AxCut.LinTypedProg st.s5 ∧
+    C12_codegenTotal st.s5
+
+/-- C12 as given: for EVERY accepted program with a valid `main`.  FALSE (`C12_statement_full_false`,
+    finding D13: a program that calls `main`). -/
+def C12_statement_full : Prop :=
+  ∀ (p : Fun.Program) (p' : Fun.CheckedProgram),
+    programNamesOk p = true → checkProgram p = .ok p' → validMain p' = true → C12_conclusion p p'
+
+/-- C12 for every accepted program with a valid `main` that does not call `main` -/
 def C12_statement : Prop :=
   ∀ (p : Fun.Program) (p' : Fun.CheckedProgram),
     programNamesOk p = true → checkProgram p = .ok p' → validMain p' = true →
-    Fun.Typing.WT p ∧ Fun.Typing.annotatedProgram p' = true ∧
-    ∃ st : Stages, stages p' = .ok st ∧
-      st.s2.wellTyped = true ∧
-      Core2AxCut.wtFsCheck st.s3 = true ∧ Core.uniqueBindersCheck st.s3 = true ∧
-      AxCut.Named.wtAxCheck st.s4 = .ok () ∧
-      AxCut.LinTypedProg st.s5 ∧
-      C12_codegenTotal st.s5
+    Fun.noMainCall p' = true → C12_conclusion p p'
 
 /-! ## the links that are not theorems yet -/
 
@@ -103,13 +131,14 @@ def C12_statement : Prop :=
 def C12_link_fun2core : Prop :=
   ∀ (p : Fun.Program) (p' : Fun.CheckedProgram),
     programNamesOk p = true → checkProgram p = .ok p' → validMain p' = true →
+    Fun.noMainCall p' = true →
     ∃ q2, Fun2Core.compileProg p' = .ok q2 ∧ Input q2 ∧ typesDisjoint q2 = true
 
 /-- uniquify + focus preserve typing (shape typing and scoping of the focused program) -/
 def C12_link_focus : Prop :=
   ∀ (p : Fun.Program) (p' : Fun.CheckedProgram) (q2 : Core.Prog),
     programNamesOk p = true → checkProgram p = .ok p' → validMain p' = true →
-    Fun2Core.compileProg p' = .ok q2 →
+    Fun.noMainCall p' = true → Fun2Core.compileProg p' = .ok q2 →
     Core2AxCut.wtFsScopedCheck (Core.focusProg q2) = true
 
 /-- shrinking preserves typing: the output passes the AxCut checker and is well-formed non-linear
@@ -119,7 +148,7 @@ def C12_link_focus : Prop :=
 def C12_link_shrink : Prop :=
   ∀ (p : Fun.Program) (p' : Fun.CheckedProgram) (q2 : Core.Prog) (q4 : AxCut.Prog),
     programNamesOk p = true → checkProgram p = .ok p' → validMain p' = true →
-    Fun2Core.compileProg p' = .ok q2 →
+    Fun.noMainCall p' = true → Fun2Core.compileProg p' = .ok q2 →
     Core2AxCut.shrinkProg (Core.focusProg q2) = .ok q4 →
     AxCut.Named.wtAxCheck q4 = .ok () ∧ AxCut.WfNonLinear q4
 
@@ -127,7 +156,8 @@ def C12_link_shrink : Prop :=
     generators fail only with a capacity error -/
 def C12_link_codegen : Prop :=
   ∀ (p : Fun.Program) (p' : Fun.CheckedProgram) (st : Stages),
-    programNamesOk p = true → checkProgram p = .ok p' → validMain p' = true → stages p' = .ok st →
+    programNamesOk p = true → checkProgram p = .ok p' → validMain p' = true →
+    Fun.noMainCall p' = true → stages p' = .ok st →
     C12_codegenTotal st.s5
 
 /-! ## the chain -/
@@ -146,55 +176,80 @@ structure C12_Facts (p : Fun.Program) (p' : Fun.CheckedProgram) (st : Stages) : 
   scoped3 : Core2AxCut.wtFsScopedCheck st.s3 = true
   unique3 : Core.uniqueBindersCheck st.s3 = true
   uniqueIds3 : Core2AxCut.uniqueIdsCheck st.s3 = true
+  idsBounded3 : Core2AxCut.idsBoundedCheck st.s3 = true
+  mainInt3 : Core2AxCut.mainIntParams st.s3 = true
   wtAx4 : AxCut.Named.wtAxCheck st.s4 = .ok ()
   wf4 : AxCut.WfNonLinear st.s4
   noEnv4 : AxCut.noEnvAnnProg st.s4 = true
   lin5 : AxCut.LinTypedProg st.s5
 
+/-- the derived facts, for ONE compilation: from `stages p' = .ok st` and the four facts that are not
+    theorems (S2 is an `Input` of C03, S3 is scoped-typed, S4 passes the AxCut checker and is
+    `WfNonLinear`) to everything else, by the theorems C15_sound, C03_unique_binders_global,
+    shrinkProg_noEnvAnn, C05_linearize_LinTyped, stages_mainHead -/
+theorem C12_facts_core {p : Fun.Program} {p' : Fun.CheckedProgram} {st : Stages}
+    (hn : programNamesOk p = true) (hc : checkProgram p = .ok p') (hv : validMain p' = true)
+    (hok : stages p' = .ok st) (hin : Input st.s2)
+    (hs3 : Core2AxCut.wtFsScopedCheck st.s3 = true)
+    (hax : AxCut.Named.wtAxCheck st.s4 = .ok ()) (hwf : AxCut.WfNonLinear st.s4) :
+    C12_Facts p p' st := by
+  obtain ⟨hwt, _, _, hann⟩ := C15_sound p p' hn hc
+  obtain ⟨e2, e3, e4, e5⟩ := stages_ok_iff.1 hok
+  obtain ⟨hpf, e3'⟩ := focusProgE_ok_iff.1 e3
+  have hglob : ∀ d ∈ st.s3.defs, Core.UniqueBindersGlobal st.s3.maxId d := by
+    rw [e3']
+    exact fun d hd => (C03_unique_binders_global st.s2 hin.bindersZero hin.occsOld d hd).1
+  have hu : Core.uniqueBindersCheck st.s3 = true := uniqueBindersCheck_complete hglob
+  have hne := shrinkProg_noEnvAnn e4
+  obtain ⟨q5, e5', hlin, _⟩ := C05.C05_linearize_LinTyped st.s4 hwf
+  rw [e5] at e5'
+  injection e5' with e5'
+  subst e5'
+  obtain ⟨_, m3, _, _⟩ := stages_mainHead (validMainK_of_validMain hv) hok
+  exact
+    { wt := hwt, annotated := hann, ok := hok
+      s2ok := e2, s3eq := e3', s4ok := e4, s5ok := e5
+      input2 := hin, panicFree2 := hpf, scoped3 := hs3, unique3 := hu
+      uniqueIds3 := uniqueIdsCheck_of_global hglob
+      idsBounded3 := idsBoundedCheck_of_global hglob
+      mainInt3 := mainIntParams_of_mainHead m3
+      wtAx4 := hax, wf4 := hwf, noEnv4 := hne, lin5 := hlin }
+
 /-- the chain S1 → S5: from the three typing links and the theorems C15_sound,
     C03_unique_binders_global, C04_no_panic, C05_linearize_LinTyped -/
 theorem C12_facts (h2 : C12_link_fun2core) (h3 : C12_link_focus) (h4 : C12_link_shrink)
     (p : Fun.Program) (p' : Fun.CheckedProgram)
-    (hn : programNamesOk p = true) (hc : checkProgram p = .ok p') (hv : validMain p' = true) :
+    (hn : programNamesOk p = true) (hc : checkProgram p = .ok p') (hv : validMain p' = true)
+    (hmc : Fun.noMainCall p' = true) :
     ∃ st, C12_Facts p p' st := by
-  obtain ⟨hwt, _, _, hann⟩ := C15_sound p p' hn hc
-  obtain ⟨q2, e2, hin, hdis⟩ := h2 p p' hn hc hv
+  obtain ⟨q2, e2, hin, hdis⟩ := h2 p p' hn hc hv hmc
   have hpf := focusPanicFree_of_wellTyped hdis hin.typed
-  have hs3 := h3 p p' q2 hn hc hv e2
-  have hglob := C03_unique_binders_global q2 hin.bindersZero hin.occsOld
-  have hu : Core.uniqueBindersCheck (Core.focusProg q2) = true :=
-    uniqueBindersCheck_complete fun d hd => (hglob d hd).1
+  have hs3 := h3 p p' q2 hn hc hv hmc e2
   obtain ⟨q4, e4⟩ := C04_no_panic (Core.focusProg q2) (wtFsCheck_of_scoped hs3)
-  obtain ⟨hax, hwf⟩ := h4 p p' q2 q4 hn hc hv e2 e4
-  have hne := shrinkProg_noEnvAnn e4
-  obtain ⟨q5, e5, hlin, _⟩ := C05.C05_linearize_LinTyped q4 hwf
+  obtain ⟨hax, hwf⟩ := h4 p p' q2 q4 hn hc hv hmc e2 e4
+  obtain ⟨q5, e5, _, _⟩ := C05.C05_linearize_LinTyped q4 hwf
   have e3 : Core.focusProgE q2 = .ok (Core.focusProg q2) := focusProgE_ok_iff.2 ⟨hpf, rfl⟩
   refine ⟨⟨q2, Core.focusProg q2, q4, q5⟩, ?_⟩
-  exact
-    { wt := hwt, annotated := hann
-      ok := stages_ok_iff.2 ⟨e2, e3, e4, e5⟩
-      s2ok := e2, s3eq := rfl, s4ok := e4, s5ok := e5
-      input2 := hin, panicFree2 := hpf, scoped3 := hs3, unique3 := hu
-      uniqueIds3 := uniqueIdsCheck_of_check hu
-      wtAx4 := hax, wf4 := hwf, noEnv4 := hne, lin5 := hlin }
+  exact C12_facts_core hn hc hv (stages_ok_iff.2 ⟨e2, e3, e4, e5⟩) hin hs3 hax hwf
 
 /-- **C12_chain**: C12 follows from the four links -/
 theorem C12_chain (h2 : C12_link_fun2core) (h3 : C12_link_focus) (h4 : C12_link_shrink)
     (h6 : C12_link_codegen) : C12_statement := by
-  intro p p' hn hc hv
-  obtain ⟨st, F⟩ := C12_facts h2 h3 h4 p p' hn hc hv
+  intro p p' hn hc hv hmc
+  obtain ⟨st, F⟩ := C12_facts h2 h3 h4 p p' hn hc hv hmc
   exact ⟨F.wt, F.annotated, st, F.ok, F.input2.typed, wtFsCheck_of_scoped F.scoped3, F.unique3,
-    F.wtAx4, F.lin5, h6 p p' st hn hc hv F.ok⟩
+    F.wtAx4, F.lin5, h6 p p' st hn hc hv hmc F.ok⟩
 
 /-- the part of C12 that needs no code-generator link: S1 … S5 -/
 theorem C12_chain_partial (h2 : C12_link_fun2core) (h3 : C12_link_focus) (h4 : C12_link_shrink)
     (p : Fun.Program) (p' : Fun.CheckedProgram)
-    (hn : programNamesOk p = true) (hc : checkProgram p = .ok p') (hv : validMain p' = true) :
+    (hn : programNamesOk p = true) (hc : checkProgram p = .ok p') (hv : validMain p' = true)
+    (hmc : Fun.noMainCall p' = true) :
     Fun.Typing.WT p ∧ Fun.Typing.annotatedProgram p' = true ∧
     ∃ st : Stages, stages p' = .ok st ∧ st.s2.wellTyped = true ∧
       Core2AxCut.wtFsCheck st.s3 = true ∧ Core.uniqueBindersCheck st.s3 = true ∧
       AxCut.Named.wtAxCheck st.s4 = .ok () ∧ AxCut.LinTypedProg st.s5 := by
-  obtain ⟨st, F⟩ := C12_facts h2 h3 h4 p p' hn hc hv
+  obtain ⟨st, F⟩ := C12_facts h2 h3 h4 p p' hn hc hv hmc
   exact ⟨F.wt, F.annotated, st, F.ok, F.input2.typed, wtFsCheck_of_scoped F.scoped3, F.unique3,
     F.wtAx4, F.lin5⟩
 
@@ -203,19 +258,13 @@ theorem C12_chain_partial (h2 : C12_link_fun2core) (h3 : C12_link_focus) (h4 : C
 /-- no stage of the middle end panics on an accepted program (given the three typing links) -/
 theorem C12_middleEnd_no_panic (h2 : C12_link_fun2core) (h3 : C12_link_focus) (h4 : C12_link_shrink)
     (p : Fun.Program) (p' : Fun.CheckedProgram)
-    (hn : programNamesOk p = true) (hc : checkProgram p = .ok p') (hv : validMain p' = true) :
+    (hn : programNamesOk p = true) (hc : checkProgram p = .ok p') (hv : validMain p' = true)
+    (hmc : Fun.noMainCall p' = true) :
     ∃ q5, middleEnd p' = .ok q5 := by
-  obtain ⟨st, F⟩ := C12_facts h2 h3 h4 p p' hn hc hv
+  obtain ⟨st, F⟩ := C12_facts h2 h3 h4 p p' hn hc hv hmc
   exact ⟨st.s5, middleEnd_ok_iff.2 ⟨st, F.ok, rfl⟩⟩
 
-/-! ## non-vacuity: a concrete program satisfies the premises of `C12_statement`, and on it every
-decidable fact that the links and the chain assert holds (checked by kernel evaluation of the models) -/
-
-/-- a list sum: a polymorphic data type, a recursive definition with `case`, `let`, a call,
-    `println_i64`, one integer parameter of `main` -/
-def C12_exSrc : String := "data List[A] { Nil, Cons(x: A, xs: List[A]) }
-def sum(l: List[i64]): i64 { l.case[i64] { Nil => 0, Cons(x, xs) => let r: i64 = sum(xs); x + r } }
-def main(n: i64): i64 { let s: i64 = sum(Cons(n, Cons(2, Nil))); println_i64(s); 0 }"
+/-! ## the decidable content of the typing links, per program -/
 
 def C12_isOk {α : Type} : Except String α → Bool
   | .ok _ => true
@@ -235,20 +284,96 @@ theorem C12_inputB_sound {q2 : Core.Prog} (h : C12_inputB q2 = true) : Input q2 
   simp only [C12_inputB, Bool.and_eq_true, decide_eq_true_eq] at h
   exact ⟨h.1.1.1, h.1.2, h.2, h.1.1.2⟩
 
-/-- premises of C12 / C01 and the decidable content of `C12_link_fun2core`, `C12_link_focus`,
-    `C12_link_shrink` and of the conclusion of `C12_statement` for S1 … S5 -/
+/-- the facts about the stages of one compilation that are NOT theorems (they are the conclusions of
+    `C12_link_fun2core`, `C12_link_focus`, `C12_link_shrink`), as ONE executable check:
+    S2 is an `Input` of C03 (well-typed, binder ids 0, occurrence ids `≤ maxId`, no `ς`),
+    S3 passes the scoped shape typing, S4 passes the AxCut checker and is `WfNonLinear`. -/
+def C12_stageChecks (st : Stages) : Bool :=
+  C12_inputB st.s2 && Core2AxCut.wtFsScopedCheck st.s3 &&
+  C12_isOk (AxCut.Named.wtAxCheck st.s4) && AxCut.wfNonLinearCheck st.s4
+
+/-- **the per-program predicate**: the middle end succeeds and its stages pass `C12_stageChecks`.
+    Decidable; evaluated by the checks on every accepted program of every run
+    (`Scc.Pipeline.Links.linksLine`, names `stages`, `input2`, `wtFsScoped3`, `wtAx4`, `wfNonLinear4`). -/
+def C12_linkChecks (p' : Fun.CheckedProgram) : Bool :=
+  match stages p' with
+  | .ok st => C12_stageChecks st
+  | .error _ => false
+
+theorem C12_isOk_unit {r : Except String Unit} (h : C12_isOk r = true) : r = .ok () := by
+  cases r with
+  | ok u => rfl
+  | error e => cases h
+
+theorem C12_linkChecks_iff {p' : Fun.CheckedProgram} :
+    C12_linkChecks p' = true ↔ ∃ st, stages p' = .ok st ∧ C12_stageChecks st = true := by
+  unfold C12_linkChecks
+  cases h : stages p' with
+  | error e => simp
+  | ok st => simp
+
+/-- for ONE program: everything the chain knows, from the decidable predicate alone (no link
+    hypothesis): the facts of `C12_stageChecks` are read off, the others are derived by the theorems
+    listed at `C12_facts_core` -/
+theorem C12_facts_of_checks (p : Fun.Program) (p' : Fun.CheckedProgram)
+    (hn : programNamesOk p = true) (hc : checkProgram p = .ok p') (hv : validMain p' = true)
+    (hlc : C12_linkChecks p' = true) : ∃ st, C12_Facts p p' st := by
+  obtain ⟨st, hok, hs⟩ := C12_linkChecks_iff.1 hlc
+  simp only [C12_stageChecks, Bool.and_eq_true] at hs
+  obtain ⟨⟨⟨h2, h3⟩, h4⟩, h4'⟩ := hs
+  exact ⟨st, C12_facts_core hn hc hv hok (C12_inputB_sound h2) h3 (C12_isOk_unit h4)
+    ((AxCut.wfNonLinearCheck_iff st.s4).1 h4')⟩
+
+/-- for ONE program: the conclusion of C12 for S1 … S5 from the decidable predicate (the code
+    generators: `C12_link_codegen`) -/
+theorem C12_of_linkChecks (p : Fun.Program) (p' : Fun.CheckedProgram)
+    (hn : programNamesOk p = true) (hc : checkProgram p = .ok p') (hv : validMain p' = true)
+    (hlc : C12_linkChecks p' = true) :
+    Fun.Typing.WT p ∧ Fun.Typing.annotatedProgram p' = true ∧
+    ∃ st : Stages, stages p' = .ok st ∧ st.s2.wellTyped = true ∧
+      Core2AxCut.wtFsCheck st.s3 = true ∧ Core.uniqueBindersCheck st.s3 = true ∧
+      AxCut.Named.wtAxCheck st.s4 = .ok () ∧ AxCut.LinTypedProg st.s5 := by
+  obtain ⟨st, F⟩ := C12_facts_of_checks p p' hn hc hv hlc
+  exact ⟨F.wt, F.annotated, st, F.ok, F.input2.typed, wtFsCheck_of_scoped F.scoped3, F.unique3,
+    F.wtAx4, F.lin5⟩
+
+/-- the typing links imply the predicate, for every accepted program with a valid `main` that does
+    not call `main` (so `C12_linkChecks` is not an additional restriction once the links are proved) -/
+theorem C12_linkChecks_of_links (h2 : C12_link_fun2core) (h3 : C12_link_focus) (h4 : C12_link_shrink)
+    (p : Fun.Program) (p' : Fun.CheckedProgram)
+    (hn : programNamesOk p = true) (hc : checkProgram p = .ok p') (hv : validMain p' = true)
+    (hmc : Fun.noMainCall p' = true) : C12_linkChecks p' = true := by
+  obtain ⟨st, F⟩ := C12_facts h2 h3 h4 p p' hn hc hv hmc
+  refine C12_linkChecks_iff.2 ⟨st, F.ok, ?_⟩
+  have hin := F.input2
+  simp only [C12_stageChecks, C12_inputB, Bool.and_eq_true, decide_eq_true_eq]
+  exact ⟨⟨⟨⟨⟨⟨hin.typed, hin.noSigma⟩, hin.bindersZero⟩, hin.occsOld⟩, F.scoped3⟩,
+    by rw [F.wtAx4]; rfl⟩, (AxCut.wfNonLinearCheck_iff st.s4).2 F.wf4⟩
+
+/-! ## non-vacuity: a concrete program satisfies the premises of `C12_statement`, and on it every
+decidable fact that the links and the chain assert holds (checked by kernel evaluation of the models) -/
+
+/-- a list sum: a polymorphic data type, a recursive definition with `case`, `let`, a call,
+    `println_i64`, one integer parameter of `main` -/
+def C12_exSrc : String := "data List[A] { Nil, Cons(x: A, xs: List[A]) }
+def sum(l: List[i64]): i64 { l.case[i64] { Nil => 0, Cons(x, xs) => let r: i64 = sum(xs); x + r } }
+def main(n: i64): i64 { let s: i64 = sum(Cons(n, Cons(2, Nil))); println_i64(s); 0 }"
+
+/-- premises of C12 / C01 (`programNamesOk`, accepted, `validMain`, `noMainCall`), the predicate
+    `C12_linkChecks`, and every fact that `C12_facts_of_checks` DERIVES from it (re-evaluated here) -/
 def C12_exChecks (src : String) : Bool :=
   match Fun.Parse.parse .diagOnOverflow src with
   | .ok p =>
     programNamesOk p &&
     match checkProgram p with
     | .ok p' =>
-      validMain p' && Fun.Typing.annotatedProgram p' &&
+      validMain p' && Fun.noMainCall p' && Fun.Typing.annotatedProgram p' && C12_linkChecks p' &&
       match stages p' with
       | .ok st =>
         C12_inputB st.s2 && typesDisjoint st.s2 && st.s2.focusPanicFree &&
         Core2AxCut.wtFsScopedCheck st.s3 && Core.uniqueBindersCheck st.s3 &&
-        Core2AxCut.uniqueIdsCheck st.s3 &&
+        Core2AxCut.uniqueIdsCheck st.s3 && Core2AxCut.idsBoundedCheck st.s3 &&
+        Core2AxCut.mainIntParams st.s3 &&
         C12_isOk (AxCut.Named.wtAxCheck st.s4) && AxCut.wfNonLinearCheck st.s4 &&
         AxCut.noEnvAnnProg st.s4 && C12_isOk (AxCut.linTypedCheck st.s5)
       | .error _ => false
@@ -274,10 +399,12 @@ set_option maxRecDepth 100000 in
 theorem C12_example_codegen : C12_exCodegen C12_exSrc = true := by decide +kernel
 
 /-- the premises of `C12_statement` (and of `C01_statement`) are satisfiable: the parser's output for
-    `C12_exSrc` has identifier names, is accepted, and has a valid `main` -/
+    `C12_exSrc` has identifier names, is accepted, has a valid `main` that is not called, and passes
+    `C12_linkChecks` -/
 theorem C12_example_premises :
     ∃ p p', Fun.Parse.parse .diagOnOverflow C12_exSrc = .ok p ∧ programNamesOk p = true ∧
-      checkProgram p = .ok p' ∧ validMain p' = true ∧ (∃ st, stages p' = .ok st) := by
+      checkProgram p = .ok p' ∧ validMain p' = true ∧ Fun.noMainCall p' = true ∧
+      C12_linkChecks p' = true ∧ (∃ st, stages p' = .ok st) := by
   have h := C12_example_checks
   unfold C12_exChecks at h
   cases hp : Fun.Parse.parse .diagOnOverflow C12_exSrc with
@@ -289,26 +416,79 @@ theorem C12_example_premises :
     | ok p' =>
       rw [hc] at h
       simp only [Bool.and_eq_true] at h
-      obtain ⟨⟨hv, _⟩, h⟩ := h
+      obtain ⟨⟨⟨⟨hv, hmc⟩, _⟩, hlc⟩, h⟩ := h
       cases hs : stages p' with
-      | ok st => exact ⟨p, p', rfl, hn, hc, hv, st, hs⟩
+      | ok st => exact ⟨p, p', rfl, hn, hc, hv, hmc, hlc, st, hs⟩
       | error e => rw [hs] at h; cases h
     | diag c => rw [hc] at h; cases h
     | panic c => rw [hc] at h; cases h
   | diag c => rw [hp] at h; cases h
   | panic c => rw [hp] at h; cases h
 
+/-! ## the statement as given is false: finding D13 (a program that calls `main`) -/
+
+/-- `main` calls itself: accepted by the checker, valid `main` -/
+def C12_d13Src : String := "def main(n: i64): i64 { if n == 0 { 0 } else { 1 + main(n - 1) } }"
+
+/-- on `C12_d13Src`: the premises of `C12_statement_full` hold, `noMainCall` fails, and the translation
+    either fails or produces a Core program that is not well-typed -/
+def C12_d13Check (src : String) : Bool :=
+  match Fun.Parse.parse .diagOnOverflow src with
+  | .ok p =>
+    programNamesOk p &&
+    match checkProgram p with
+    | .ok p' =>
+      validMain p' && !Fun.noMainCall p' &&
+      match stages p' with
+      | .ok st => !st.s2.wellTyped
+      | .error _ => true
+    | _ => false
+  | _ => false
+
+set_option maxRecDepth 100000 in
+theorem C12_d13_checks : C12_d13Check C12_d13Src = true := by decide +kernel
+
+/-- **`C12_statement_full` is false** (finding D13: fun2core mistranslates a program that calls `main`) -/
+theorem C12_statement_full_false : ¬ C12_statement_full := by
+  intro hfull
+  have h := C12_d13_checks
+  unfold C12_d13Check at h
+  cases hp : Fun.Parse.parse .diagOnOverflow C12_d13Src with
+  | ok p =>
+    rw [hp] at h
+    simp only [Bool.and_eq_true] at h
+    obtain ⟨hn, h⟩ := h
+    cases hc : checkProgram p with
+    | ok p' =>
+      rw [hc] at h
+      simp only [Bool.and_eq_true] at h
+      obtain ⟨⟨hv, _⟩, h⟩ := h
+      obtain ⟨_, _, st, hok, hty, _⟩ := hfull p p' hn hc hv
+      rw [hok] at h
+      simp [hty] at h
+    | diag c => rw [hc] at h; cases h
+    | panic c => rw [hc] at h; cases h
+  | diag c => rw [hp] at h; cases h
+  | panic c => rw [hp] at h; cases h
+
+#print axioms C12_facts_core
 #print axioms C12_facts
 #print axioms C12_chain
 #print axioms C12_chain_partial
 #print axioms C12_middleEnd_no_panic
+#print axioms C12_facts_of_checks
+#print axioms C12_of_linkChecks
+#print axioms C12_linkChecks_of_links
 #print axioms Scc.Pipeline.stages_mainHead
 #print axioms Scc.Pipeline.shrinkProg_noEnvAnn
 #print axioms Scc.Pipeline.focusPanicFree_of_wellTyped
 #print axioms Scc.Pipeline.uniqueIdsCheck_of_global
+#print axioms Scc.Pipeline.idsBoundedCheck_of_global
+#print axioms Scc.Pipeline.mainIntParams_of_mainHead
 #print axioms Scc.Pipeline.uniqueBindersCheck_complete
 #print axioms C12_example_checks
 #print axioms C12_example_codegen
 #print axioms C12_example_premises
+#print axioms C12_statement_full_false
 
 end Scc.Props
